@@ -11,7 +11,7 @@ Requests
   layout_smin     <tree>                                ->  <n>                                                | unmodelled
   layout_text_spec <text> <width>                       ->  <min>,<max>,<wrapped 0|1|E>   (Text.__rich_measure__ and "rendered at w, is any paragraph divided?")
 
-  flags = frames variant bitmask (as Drv/C08) , the Text/Wrap flags (as Drv/C02 `decWVariant?`) , the table flags (three to six, by position)   e.g. `0,00000000,000000` (all repaired: what the harness sends for /repo)
+  flags = frames variant bitmask (as Drv/C08) , the Text/Wrap flags (as Drv/C02 `decWVariant?`) , the table flags (three to seven, by position)   e.g. `0,00000000,0000000` (all repaired: what the harness sends for /repo)
   env   = consoleWidth,ascii,legacy,safe,nocolor,colorsystem
   opts  = justify overflow nowrap (one character each, as Drv/C02: N d l c r f / N f c e i / N 0 1) joined by `,`
   tree  = prefix tokens joined by `|` (see `parseR`); a text token is the wire format of Drv/C02 (`decText?`)
